@@ -6,6 +6,7 @@ executed), Model (collaborators given by their contracts).  Every `assert`, subs
 and callee precondition generates a verification condition that is discharged by z3 under the path condition.
 """
 import ast
+import sys
 import time
 from fractions import Fraction
 
@@ -309,6 +310,13 @@ class Path:
     # -------------------------------------------------------------- verification conditions
     def check(self, name, goal, detail="", kind="safety"):
         """Prove goal under the path condition; record the result; continue with goal assumed."""
+        exc = SAFETY_EXCEPTIONS.get(name.split("[")[0]) if kind == "safety" else None
+        if exc is not None and caught_by_enclosing_try(self, exc):
+            # the operation is inside `try: ... except <exc>`: its failure is ordinary control flow - fork instead of recording an obligation
+            ok = goal if isinstance(goal, bool) else self.branch(SBool(self.z(goal) if not z3.is_expr(goal) else goal))
+            if not ok:
+                raise PyRaise(exc)
+            return True
         if isinstance(goal, bool):
             if goal:
                 self.vcs.append(VC(name, "discharged", detail, kind=kind))
@@ -341,6 +349,24 @@ class Path:
         self.vcs.append(VC(name, "undecided", detail + " [solver: %s]" % self.solver.reason_unknown(), time_s=dt, kind=kind))
         self.solver.add(g)
         return False
+
+
+SAFETY_EXCEPTIONS = {"index-in-range": "IndexError", "key-present": "KeyError", "nonzero-divisor": "ZeroDivisionError", "assert": "AssertionError"}
+EXCEPTION_PARENTS = {"IndexError": ("LookupError",), "KeyError": ("LookupError",), "ZeroDivisionError": ("ArithmeticError",), "AssertionError": (),
+                     "ValueError": (), "TypeError": (), "RuntimeError": (), "StopIteration": ()}
+
+
+def exception_matches(what, caught):
+    """does a handler for the class names `caught` (None = bare except) catch the exception described by `what` ("KeyError", "ValueError('x')", ...)?"""
+    if caught is None:
+        return True
+    name = what.split("(")[0].strip().split(".")[-1]
+    names = {name, "Exception", "BaseException"} | set(EXCEPTION_PARENTS.get(name, ()))
+    return bool(names & set(caught))
+
+
+def caught_by_enclosing_try(P, what):
+    return any(exception_matches(what, c) for c in P.ghost.get("try_stack", ()))
 
 
 def check_isolated(P, name, goal, assumptions, detail="", kind="safety", timeout_ms=20000):
@@ -457,7 +483,16 @@ class Interp:
         if isinstance(v, Model) and hasattr(v, "m___len__"):
             # Python: an object with __len__ and no __bool__ is true iff its length is not zero
             return self.truth(v.m___len__(self))
-        if isinstance(v, (Obj, Model)):
+        if isinstance(v, Obj):
+            # Python: __bool__ decides, else __len__ != 0, else every instance is true
+            bm = v.cls.find("methods", "__bool__")
+            if bm is not None:
+                return self.truth(self.call_function(bm, [v], {}))
+            lm = v.cls.find("methods", "__len__")
+            if lm is not None:
+                return self.truth(self.call_function(lm, [v], {}))
+            return True
+        if isinstance(v, Model):
             return True
         return bool(v)
 
@@ -635,9 +670,20 @@ class Interp:
         if isinstance(a, (list, tuple)) and isinstance(op, ast.Mult) and isinstance(b, int):
             return a * b
         if isinstance(a, str) and isinstance(op, (ast.Add, ast.Mod, ast.Mult)):
+            from pyvc import builtins_model as B
+
             if isinstance(op, ast.Add):
-                return a + str(b)
-            return a  # string formatting is not modelled
+                if isinstance(b, str):
+                    return a + b
+                raise Unsupported("str + %s" % type(b).__name__)
+            if isinstance(op, ast.Mult):
+                if isinstance(b, int):
+                    return a * b
+                raise Unsupported("str * %s" % type(b).__name__)
+            ok, cv = B.concrete_text(b)
+            if ok:
+                return a % cv
+            return B.OpaqueStr("%-formatting of symbolic values")
         conc = (int, float, Fraction)
         if isinstance(a, conc) and isinstance(b, conc) and not isinstance(a, bool) and not isinstance(b, bool):
             if isinstance(a, float) or isinstance(b, float):
@@ -650,6 +696,8 @@ class Interp:
                     if b == 0:
                         self.raise_py(node, "ZeroDivisionError")
                     return _num_or_int(Num.const(a) / Num.const(b))
+                if isinstance(op, (ast.Mod, ast.FloorDiv)) and b == 0:
+                    self.raise_py(node, "ZeroDivisionError")
                 return _py_binop(op, a, b)
         a, b = self.to_num(a), self.to_num(b)
         if isinstance(op, ast.Add):
@@ -680,9 +728,13 @@ class Interp:
                 self.P.check("nonzero-divisor[%s]" % self.site(node), zb != 0, "modulus %r" % (b,))
             if a.is_const() and b.is_const():
                 return _py_binop(op, int(a.const_value()), int(b.const_value()))
-            # Python semantics for positive modulus coincide with SMT-LIB mod/div
-            self.P.check("positive-modulus[%s]" % self.site(node), zb > 0, "python %/ // modelled for positive divisors only")
-            r = alg.z3atom(za % zb if isinstance(op, ast.Mod) else za / zb)
+            # Python: a // b = floor(a / b) and a % b = a - b * (a // b). SMT-LIB div is the floor for a positive divisor, and
+            # floor(a / b) = floor((-a) / (-b)), so for a negative divisor the quotient is (-a) div (-b)
+            if b.is_const() and b.const_value() > 0:
+                q = za / zb
+            else:
+                q = z3.If(zb > 0, za / zb, (-za) / (-zb))
+            r = alg.z3atom(q if isinstance(op, ast.FloorDiv) else za - zb * q)
         else:
             raise Unsupported("binary operator %s" % type(op).__name__)
         return _num_or_int(r)
@@ -732,7 +784,31 @@ class Interp:
         return [self.eval(e, fr) for e in node.elts]
 
     def e_Set(self, node, fr):
-        return set(self.eval(e, fr) for e in node.elts)
+        return self.make_set([self.eval(e, fr) for e in node.elts])
+
+    def set_insert(self, items, v):
+        """insert v into a list of pairwise different values: an element that MAY equal v forks the path (equal: nothing is added)"""
+        for w in items:
+            e = self.equal(v, w)
+            if e is True:
+                return False
+            if e is False:
+                continue
+            if self.P.branch(e):
+                return False
+        items.append(v)
+        return True
+
+    def make_set(self, values, frozen=False):
+        res = []
+        for v in values:
+            self.set_insert(res, v)
+        if any(isinstance(v, (Num, Obj, Model, SBool)) for v in res):
+            return SetVal(res)
+        try:
+            return frozenset(res) if frozen else set(res)
+        except TypeError:
+            return SetVal(res)
 
     def e_Dict(self, node, fr):
         hook = getattr(self.registry, "empty_dict_model", None) if self.registry is not None else None
@@ -740,11 +816,38 @@ class Interp:
             return hook(self)  # the harness abstracts the dictionary built by the function under contract
         d = {}
         for k, v in zip(node.keys, node.values):
-            d[self.eval(k, fr)] = self.eval(v, fr)
+            if k is None:
+                self.unsupported(node, "dictionary unpacking in a display")
+            kk = self.eval(k, fr)
+            self.setitem(d, kk, self.eval(v, fr), node)  # keys that may be equal fork the path (the later value wins, the first key stays)
         return d
 
     def e_JoinedStr(self, node, fr):
-        return "<fstring>"
+        from pyvc import builtins_model as B
+
+        parts, known = [], True
+        for v in node.values:
+            if isinstance(v, ast.Constant):
+                parts.append(v.value)
+                continue
+            val = self.eval(v.value, fr)
+            spec = None
+            if v.format_spec is not None:
+                spec = self.e_JoinedStr(v.format_spec, fr)
+            ok, cv = B.concrete_text(val)
+            if isinstance(val, str):
+                ok, cv = True, val
+            if ok and (spec is None or isinstance(spec, str)) and v.conversion in (-1, 115, 114):
+                cv = repr(cv) if v.conversion == 114 else (str(cv) if v.conversion == 115 else cv)
+                parts.append(format(cv, spec or ""))
+            else:
+                known = False
+                parts.append(("value", val, spec))
+        if known:
+            return "".join(parts)
+        if self.registry is not None and getattr(self.registry, "structured_strings", False):
+            return B.StrExpr(("fstring", tuple(parts)))
+        return B.OpaqueStr("f-string over symbolic values")
 
     def e_UnaryOp(self, node, fr):
         v = self.eval(node.operand, fr)
@@ -838,11 +941,7 @@ class Interp:
             return first.set_comprehension(self, node, node.generators[0], fr)
         out = []
         self._comp(node.generators, 0, fr, lambda f: out.append(self.eval(node.elt, f)), first)
-        res = []
-        for v in out:
-            if not any(self.equal(v, w) is True for w in res):
-                res.append(v)
-        return SetVal(res) if any(isinstance(v, (Num, Obj, Model)) for v in res) else set(res)
+        return self.make_set(out)
 
     def e_GeneratorExp(self, node, fr):
         return self.e_ListComp(node, fr)
@@ -880,7 +979,7 @@ class Interp:
         out = {}
 
         def add(f):
-            out[self.eval(node.key, f)] = self.eval(node.value, f)
+            self.setitem(out, self.eval(node.key, f), self.eval(node.value, f), node)  # keys that may be equal fork the path
 
         self._comp(node.generators, 0, fr, add, first)
         return out
@@ -1467,6 +1566,7 @@ class Interp:
         n = 0
         while True:
             if not self.P.branch(self.truth(self.eval(node.test, fr))):
+                self.exec_block(node.orelse, fr)  # the else block runs when the condition becomes false, not after a break
                 break
             n += 1
             if n > 64:
@@ -1496,16 +1596,51 @@ class Interp:
 
     def s_Try(self, node, fr):
         self.P.effects.append(("try", getattr(node, "lineno", 0)))
+
+        def names(h):
+            if h.type is None:
+                return None
+            ts = h.type.elts if isinstance(h.type, ast.Tuple) else [h.type]
+            return tuple(_dotted_name(t).split(".")[-1] for t in ts)
+
+        caught = [names(h) for h in node.handlers]
+        stack = self.P.ghost.setdefault("try_stack", [])
+        n_vcs = len(self.P.vcs)
+        stack.extend(caught)
         try:
-            self.exec_block(node.body, fr)
+            try:
+                self.exec_block(node.body, fr)
+            finally:
+                del stack[len(stack) - len(caught):]
         except PyRaise as e:
-            for h in node.handlers:
-                self.exec_block(h.body, fr)
-                break
+            for h, c in zip(node.handlers, caught):
+                if exception_matches(e.what, c):
+                    # the raise site recorded its exception-freedom obligation as refuted just before raising: the exception is handled, so it is not one
+                    if len(self.P.vcs) > n_vcs and self.P.vcs[-1].status == "refuted" and self.P.vcs[-1].kind == "safety":
+                        self.P.vcs.pop()
+                    if h.name:
+                        fr.vars[h.name] = ("exception", e.what)
+                    try:
+                        self.exec_block(h.body, fr)
+                    except BaseException:
+                        self.exec_block(node.finalbody, fr)
+                        raise
+                    break
             else:
+                self.exec_block(node.finalbody, fr)
                 raise
+        except BaseException:
+            # break / continue / return / end of path leave through the finally block as well
+            if node.finalbody and not isinstance(sys.exc_info()[1], (PathInfeasible, Unsupported)):
+                self.exec_block(node.finalbody, fr)
+            raise
         else:
-            self.exec_block(node.orelse, fr)
+            try:
+                self.exec_block(node.orelse, fr)
+            except BaseException:
+                if node.finalbody and not isinstance(sys.exc_info()[1], (PathInfeasible, Unsupported)):
+                    self.exec_block(node.finalbody, fr)
+                raise
         self.exec_block(node.finalbody, fr)
 
     def s_FunctionDef(self, node, fr):
